@@ -11,6 +11,8 @@
 int env_alloc_fail_at = -1; /* which allocation fails */
 int env_alloc_count   = 0;  /* allocations attempted so far */
 int env_alloc_failed  = 0;  /* a failure was injected */
+int env_msg_failed    = 0;  /* ... by the message model (env_msg.c); defined here because every query links this file */
+int env_idmap_failed  = 0;  /* ... by the id-map model (env_idmap.c) */
 int env_alloc_live    = 0;  /* live blocks */
 size_t env_alloc_limit    = 0; /* if non-zero: requests above it fail (observed through env_alloc_last_req) */
 size_t env_alloc_last_req = 0;
